@@ -56,7 +56,10 @@ PROPS = {
         'units': ['builder', 'encode', 'layout', 'decode', 'registry', 'bytesio', 'cw', 'stream', 'open', 'compose'],
         'kani': ['read_le','unpack_le','to_le_bytes_spec','pack_roundtrip','common_tables','find_input_scan','seek_position'],
         'own': {'stream': r'StreamWithState::(new|seek_min|next_with)|Stream::|impl&%\\d+::(next|into_stream)|Output::',
-                'open': r'Fst::(new|len|is_empty|as_ref)|FstRef::(len|is_empty)|Map::|Set::', 'cw': r'.', 'registry': r'.'},
+                'open': r'Fst::(new|len|is_empty|as_ref)|FstRef::(len|is_empty)|Map::|Set::', 'cw': r'.',
+                # of the cache, the round trip needs soundness (a hit returns the address recorded for that very node): entry / clone_from /
+                # the cell; which row a node goes to and who is evicted is C12's and C15's business
+                'registry': r'entry|clone_from|RegistryCell|eq$'},
         'level_text': 'Proof, link by link: (1) every accepted insert/add extends the denotation of the builder (unfinished stack over the '
                       'emitted graph) by exactly (key, value) - Builder::{insert, add, insert_output, compile_from, compile} and all '
                       'UnfinishedNodes methods on their real bodies; (2) into_inner: the listing of graph(body) at the root address equals '
